@@ -57,6 +57,16 @@ def enumerate_cases(tier):
                else 0x1b}
 
 
+    # terminals that drop the error flag as soon as the acknowledgement is
+    # written, while they still report the old state for some polls
+    for start, target, d1, d2, d3, ack in itertools.product(
+            ORDER, (2, 4, 8), (0, 1), (0, 2), (0, 1), (1, 2, 3)):
+        yield {"start": start, "error": True, "target": target,
+               "delays": [d1, d2, d3], "ack_delay": ack, "error_at": None,
+               "latency": 0, "id_loaded": False, "err_code": 0x1b,
+               "ack_clears_first": True}
+
+
 def strategy(tier):
     return st.fixed_dictionaries({
         "start": st.sampled_from(ORDER),
@@ -99,6 +109,7 @@ def run_case(case):
             return 0x11
         return None
 
+    term.al_ack_clears_first = bool(case.get("ack_clears_first"))
     term.al_delay = delay
     term.al_refuse = refuse
     term.al_error_at = case["error_at"]
